@@ -23,9 +23,9 @@ func init() {
 		NumCases: func(tier string) int {
 			n := len(c17Lens) * len(c17Lens) * 2
 			if tier == "thorough" {
-				return n * 8
+				return n * 160
 			}
-			return n
+			return n * 3
 		},
 		Run: c17Run,
 		Floors: func(m *Merged, tier string) []string {
